@@ -431,7 +431,9 @@ func runC08(sc Scenario, victim int, plan []crashPoint, ref *c08Result, fail fai
 	// numbering sanity: up to the first crash the run must look like the reference
 	if ref != nil && len(plan) > 0 && plan[0].Kind == "db" {
 		for u := 0; u < plan[0].K-1 && u < len(ref.units) && u < len(vt.units); u++ {
-			if ref.units[u] != vt.units[u] {
+			a, b := ref.units[u], vt.units[u]
+			a.Pending, b.Pending = false, false // depends on how the iteration ended
+			if a != b {
 				res.prefixOK = false
 				res.divergence = fmt.Sprintf("round trip %d: reference %+v, this run %+v", u+1, ref.units[u], vt.units[u])
 				break
